@@ -152,4 +152,61 @@ def HLState.finalTable (l : HLState) : Table :=
     (endItem l.h.st l.tr).pending.reverse.foldl applyCmd l.T
   else l.T
 
+/-! ### where every character comes from, by hand
+
+  The implementation tags every character with its origin (`Source::Alias{original, alias}` nesting).  By hand
+  the same information is "which aliases were being processed where this character stands": the names of the
+  regions that contain it, innermost first.  A character keeps that list once it has been read.  The log is an
+  observer: it does not influence `hstep` (`hrunC_h`, `hlrunC_l` in Origins.lean). -/
+
+/-- for every character of the remaining text `l`: names of the aliases being processed at it, innermost first -/
+def regionNames (rs : List Region) : List Char → List (List String)
+  | [] => []
+  | _ :: t => (activeAt rs (t.length + 1)).map (·.name) :: regionNames rs t
+
+/-- the characters read by the step `h → h'` are filed (most recent first) under the aliases that were being
+    processed when they were read -/
+def hlog (h h' : HState) (log : List (List String)) : List (List String) :=
+  ((regionNames h.active h.rest).take (h'.out.length - h.out.length)).reverse ++ log
+
+/-- by-hand state + origin log (constant table) -/
+structure HCState where
+  h : HState
+  log : List (List String) := []
+
+def hstepC (T : Table) (c : HCState) : Option HCState :=
+  match hstep T c.h with
+  | none => none
+  | some h' => some { h := h', log := hlog c.h h' c.log }
+
+def hrunC (T : Table) : Nat → HCState → HCState
+  | 0, c => c
+  | f + 1, c =>
+    match hstepC T c with
+    | none => c
+    | some c' => hrunC T f c'
+
+/-- origins of all characters of the text (read ones first, then the remaining ones) -/
+def HCState.origins (c : HCState) : List (List String) := c.log.reverse ++ regionNames c.h.active c.h.rest
+
+/-- by-hand line machine + origin log -/
+structure HLCState where
+  l : HLState
+  log : List (List String) := []
+
+def hlstepC (c : HLCState) : Option HLCState :=
+  match hlstep c.l with
+  | none => none
+  | some l' => some { l := l', log := hlog c.l.h l'.h c.log }
+
+def hlrunC : Nat → HLCState → HLCState
+  | 0, c => c
+  | f + 1, c =>
+    match hlstepC c with
+    | none => c
+    | some c' => hlrunC f c'
+
+def HLCState.origins (c : HLCState) : List (List String) :=
+  c.log.reverse ++ regionNames c.l.h.active c.l.h.rest
+
 end YashModel.Alias
